@@ -107,15 +107,24 @@ def eval_doc(args):
             d2 = doc.replace('xmlns:t="urn:t"', f'xmlns="{ns}"').replace('<t:', '<').replace('</t:', '</')
             if us: d2 = d2.replace('<g>', '<g_h>').replace('</g>', '</g_h>')
             full = su.decode(d2, validation='lax')
-            for upath, key in (('/r/a', 'a'), ('/r/g_h' if us else '/r/g', 'g_h' if us else 'g')):
+            for upath, key in (('/r/a', 'a'), ('/r/g_h' if us else '/r/g', 'g_h' if us else 'g'), ('/r/g2', 'g2')):        # g2: a member standing for its head, named by an unprefixed step
+                if key == 'g2' and '<g2>' not in d2: continue
                 n += 1
                 part = su.decode(d2, path=upath, validation='lax', namespaces={'': ns})
+                # the errors of the part are the errors of the whole document located in the selected elements
+                werrs = sorted(x.reason for x in su.iter_errors(d2) if x.elem is not None and x.elem.tag.split('}')[-1] == key and 'duplicated value' not in (x.reason or ''))
+                perrs = sorted(x.reason for x in su.iter_errors(d2, path=upath, namespaces={'': ns}) if x.elem is not None and x.elem.tag.split('}')[-1] == key and 'duplicated value' not in (x.reason or ''))
+                if werrs != perrs: bad.append(('default-namespace path: errors of the part', ns, upath, perrs[:2], werrs[:2]))
                 want = full[0].get(key) if isinstance(full[0], dict) else None
                 got = part[0]
                 if want is not None and not isinstance(want, list): want = [want]
                 if got is not None and not isinstance(got, list): got = [got]
                 if (want or None) != (got or None):
-                    def strip(d): return {k: strip(v) for k, v in d.items() if not k.startswith('@xmlns')} if isinstance(d, dict) else ([strip(x) for x in d] if isinstance(d, list) else d)
+                    def strip(d):
+                        if isinstance(d, dict):
+                            x = {k: strip(v) for k, v in d.items() if not k.startswith('@xmlns')}
+                            return x['$'] if set(x) == {'$'} else x        # a simple value selected at level 0 is reported with its declarations: {'@xmlns': .., '$': v}
+                        return [strip(x) for x in d] if isinstance(d, list) else d
                     if strip(want or None) == strip(got or None): known2.append(upath)
                     else: bad.append(('default-namespace path', ns, upath, str(got)[:60], str(want)[:60]))
     except Exception as e:
